@@ -379,11 +379,15 @@ type gasOp struct {
 	Val     []byte   `json:"val,omitempty"`
 	Keys    [][]byte `json:"keys,omitempty"`
 	Signers []string `json:"signers"` // names, besides the payer
+	// tokenPay/directPay: the `from` argument is Null (From is empty then)
+	FromNull bool `json:"from_null,omitempty"`
 }
 
 func (o gasOp) String() string {
 	s := o.Kind + "("
-	if o.From != nil {
+	if o.FromNull {
+		s += "from=null,"
+	} else if o.From != nil {
 		s += "from=" + Hex(o.From) + ","
 	}
 	if o.To != nil {
@@ -479,6 +483,10 @@ func (g *gasEnv) prepare(op gasOp) *transaction.Transaction {
 	for i, k := range op.Keys {
 		keys[i] = k
 	}
+	var payFrom any = op.From
+	if op.FromNull {
+		payFrom = nil
+	}
 	switch op.Kind {
 	case "gasTransfer":
 		return g.PrepareTx(sg, g.gasH, "transfer", op.From, op.To, op.Amount, op.Data.arg())
@@ -487,9 +495,9 @@ func (g *gasEnv) prepare(op gasOp) *transaction.Transaction {
 	case "tokenTransfer":
 		return g.PrepareTx(sg, g.token, "transfer", op.From, op.To, op.Amount, op.Data.arg())
 	case "tokenPay":
-		return g.PrepareTx(sg, g.token, "pay", op.To, op.From, op.Amount, op.Data.arg())
+		return g.PrepareTx(sg, g.token, "pay", op.To, payFrom, op.Amount, op.Data.arg())
 	case "directPay":
-		return g.PrepareTx(sg, h(op.To), "onNEP17Payment", op.From, op.Amount, op.Data.arg())
+		return g.PrepareTx(sg, h(op.To), "onNEP17Payment", payFrom, op.Amount, op.Data.arg())
 	case "withdraw":
 		return g.PrepareTx(sg, g.neofs, "withdraw", op.From, op.Amount)
 	case "cheque":
@@ -923,7 +931,14 @@ func (gg *gasGen) next(step int) gasOp {
 		if kind == "tokenPay" && r.Intn(6) == 0 {
 			to = g.plain[0]
 		}
-		return gasOp{Kind: kind, From: gg.uhash(u), To: to, Amount: am, Data: d, Signers: []string{gg.uname(u)}}
+		op := gasOp{Kind: kind, From: gg.uhash(u), To: to, Amount: am, Data: d, Signers: []string{gg.uname(u)}}
+		if kind != "tokenTransfer" && r.Intn(2) == 0 {
+			// the reported sender is an argument of the caller: anything
+			fs := g.payFroms(to)
+			op.From = fs[r.Intn(len(fs))]
+			op.FromNull = op.From == nil
+		}
+		return op
 	case w < 52: // NEO
 		d := gasData{Kind: "null"}
 		if r.Intn(4) == 0 {
@@ -1127,6 +1142,21 @@ func gasRandomCfg(r *rand.Rand, thorough bool) gasEnvCfg {
 	return c
 }
 
+// payFroms: what a caller of onNEP17Payment(from, ..) of receiver r may claim
+// as the sender: an ordinary account, Null (nil), r's own hash, the GAS and
+// NEO hashes, another system contract, the Alphabet (committee) account.
+func (g *gasEnv) payFroms(r []byte) [][]byte {
+	return [][]byte{
+		g.users[0].ScriptHash().BytesBE(),
+		nil,
+		r,
+		g.gasH.BytesBE(),
+		g.neoH.BytesBE(),
+		g.E.NativeHash(g.T, nativenames.Management).BytesBE(),
+		g.alphaMulti.ScriptHash().BytesBE(),
+	}
+}
+
 // ---------------------------------------------------------------------------
 // Corpus: hand-written boundary histories, always run first.
 
@@ -1194,6 +1224,32 @@ func gasCorpus(thorough bool) []gasCorpusEntry {
 					ops = append(ops, gasOp{Kind: "verify", To: t, Signers: []string{s}})
 				}
 			}
+			return ops
+		}})
+	// accept-only is a function of the CALLER alone (NeoFS: plus the marker):
+	// every receiver x every caller kind x every claimed sender x data shapes
+	out = append(out, gasCorpusEntry{"accept-only-from", gasEnvCfg{NC: 1, WFee: i64p(7), CFee: i64p(11), IR: 1, AlphaIdx: []int64{0}},
+		func(g *gasEnv) []gasOp {
+			var ops []gasOp
+			v := g.E.Validator.ScriptHash().BytesBE()
+			datas := []gasData{null, by(gasMarker), by(g.plain[0]), by([]byte{1, 2, 3})}
+			for _, t := range [][]byte{g.neofs.BytesBE(), g.alphabets[0].BytesBE(), g.proxy.BytesBE(), g.processing.BytesBE()} {
+				for _, d := range datas {
+					for _, f := range g.payFroms(t) {
+						for _, kind := range []string{"tokenPay", "directPay"} {
+							ops = append(ops, gasOp{Kind: kind, From: f, FromNull: f == nil, To: t, Amount: bn(3), Data: d, Signers: []string{"U0"}})
+						}
+					}
+					// the native callers report the real sender
+					ops = append(ops,
+						gasOp{Kind: "gasTransfer", From: u(g, 0), To: t, Amount: bn(3), Data: d, Signers: []string{"U0"}},
+						gasOp{Kind: "neoTransfer", From: v, To: t, Amount: bn(3), Data: d, Signers: []string{"validator"}})
+				}
+			}
+			// NEO and GAS with the receiver itself as sender: Emit's self transfer and its mint
+			ops = append(ops,
+				gasOp{Kind: "gasTransfer", From: u(g, 0), To: g.alphabets[0].BytesBE(), Amount: bn(1000), Data: null, Signers: []string{"U0"}},
+				gasOp{Kind: "emit", To: g.alphabets[0].BytesBE(), Signers: []string{"C0"}})
 			return ops
 		}})
 	// withdraw / cheque / candidate in both modes, several alphabet sizes
@@ -1536,11 +1592,19 @@ func (m *gasMon) step(op gasOp, o gasObs) {
 		if m.kindOf(op.To) == "none" {
 			acc = false // nothing to call
 		}
-		mustHalt(acc, "only GAS (Alphabet: and NEO) may pay; NeoFS: or the marker")
+		if o.halt && !acc {
+			m.violate(fmt.Sprintf("%s: accepted a payment from a caller that is not GAS (NEO): %s", what, op.String()))
+		} else {
+			mustHalt(acc, "only GAS (Alphabet: and NEO) may pay; NeoFS: or the marker")
+		}
 		checkEvs = true
 	case "neoTransfer":
 		acc, _, _ := m.accepts(op.To, "neo", op.From, op.Amount, op.Data)
-		mustHalt(acc, "NEO is accepted by Alphabet contracts only (NeoFS: marker)")
+		if o.halt && !acc {
+			m.violate(fmt.Sprintf("%s: accepted a payment from a caller that is not GAS (NEO): %s", what, op.String()))
+		} else {
+			mustHalt(acc, "NEO is accepted by Alphabet contracts only (NeoFS: marker)")
+		}
 		if o.halt {
 			addTo(exp, op.To, o.minted)
 			checkEvs = true
